@@ -134,10 +134,10 @@ def main(tier):
                'environment stubs of vlib/envstubs.py; fresh channel; no I/O faults (C10)')
     rep.outside_claim("the order of HDF5's own syscalls inside one library call (they only touch the tmp. file)", 'index_len > 3, > 3 files per call, > 3 calls')
     if not wcommon.gate(rep, st): return rep.finish()
-    specs = wcommon.valid_specs(tier)
+    specs = wcommon.valid_specs(tier) + [s_ for s_ in wcommon.session_specs(tier) if s_.get('stale_tmp')]
     t0 = time.time()
     results = wrun.run_all(specs)
-    tot = wcommon.report(rep, specs, results, lambda nm: nm.startswith(KEEP))
+    tot = wcommon.report(rep, specs, results, lambda nm: nm.startswith(KEEP + ('only files this writer created and closed', 'a tmp file is renamed only onto')))
     rep.extra['write_path'] = dict(configurations=len(specs), paths=tot['paths'], queries=tot['q'], solver_s=round(tot['s'], 1), wall_s=round(time.time() - t0, 1))
     rep.ob('write path explored: every prefix of every recorded trace is a crash point', 'witness', '%d configurations' % len(specs), tot['q'], tot['s'], tot['paths'])
     grammar_p5(rep, st)
